@@ -250,7 +250,7 @@ func c06ChildMain(histPath, outPath string) error {
 	if err != nil {
 		return err
 	}
-	tr.Env = fmt.Sprintf("pid=%d GOMAXPROCS=%s GOGC=%s", os.Getpid(), os.Getenv("GOMAXPROCS"), os.Getenv("GOGC"))
+	tr.Env = fmt.Sprintf("pid=%d GOMAXPROCS=%s GOGC=%s TZ=%s (local zone %s)", os.Getpid(), os.Getenv("GOMAXPROCS"), os.Getenv("GOGC"), os.Getenv("TZ"), time.Now().Location())
 	js, err := json.Marshal(tr)
 	if err != nil {
 		return err
@@ -262,7 +262,7 @@ func c06RunChild(histPath, outPath string, variant int) (*c06Trace, error) {
 	cmd := exec.Command(os.Args[0], "c06-child", histPath, outPath)
 	env := []string{}
 	for _, kv := range os.Environ() {
-		if strings.HasPrefix(kv, "GOMAXPROCS=") || strings.HasPrefix(kv, "GOGC=") {
+		if strings.HasPrefix(kv, "GOMAXPROCS=") || strings.HasPrefix(kv, "GOGC=") || strings.HasPrefix(kv, "TZ=") {
 			continue
 		}
 		env = append(env, kv)
@@ -272,6 +272,9 @@ func c06RunChild(histPath, outPath string, variant int) (*c06Trace, error) {
 	} else {
 		env = append(env, "GOMAXPROCS=3", "GOGC=400")
 	}
+	// the second node runs on a host in another time zone (with daylight saving): calendar arithmetic
+	// must not depend on the host's local zone
+	env = append(env, "TZ="+[]string{"America/New_York", "Europe/Berlin", "Australia/Lord_Howe"}[variant%3])
 	cmd.Env = env
 	var stderr bytes.Buffer
 	cmd.Stderr = &stderr
@@ -915,7 +918,7 @@ func (g *c06Gen) opPostFile(i int) {
 	creator := g.accts[f.Owner].Addr.String()
 	var expires int64
 	if f.Gauge {
-		days := []int64{2, 3, 5, 8, 13}[i%5]
+		days := []int64{2, 3, 5, 160, 13, 230, 8, 330}[i%8] // some paid periods span daylight-saving switches of the hosts' zones
 		expires = height + 14400*days + int64(g.p.Intn(100))
 	}
 	res := g.send(f.Owner, "storage.PostFile", &storagetypes.MsgPostFile{Creator: creator, Merkle: f.Merkle, FileSize: f.Size, ProofInterval: g.cfg.ProofWindow, ProofType: 0, MaxProofs: 3, Expires: expires, Note: "{}"})
